@@ -8,6 +8,7 @@ import (
 	"go/ast"
 	"go/token"
 	"go/types"
+	"regexp"
 	"sort"
 	"strings"
 
@@ -47,6 +48,7 @@ type FnVC struct {
 	loopOrd     map[*ssa.BasicBlock]int
 	inlineDepth int
 	canaries    []*Obligation
+	explicitAssumes []string
 }
 
 type retRec struct {
@@ -120,6 +122,9 @@ func (vc *FnVC) oblige(name, kind string, props []string, pos string, guard, goa
 	if len(props) == 0 {
 		props = vc.ct.Props
 	}
+	if len(props) == 0 {
+		props = vc.ct.SafetyProps
+	}
 	ob := &Obligation{Name: full, Fn: vc.fnName(), Kind: kind, Props: props, Pos: pos, Guard: guard, Goal: goal, Cut: len(vc.log), Clause: clause, vc: vc}
 	vc.obs = append(vc.obs, ob)
 	// assert-then-assume: the execution only continues if the condition held
@@ -139,8 +144,12 @@ func shortFnName(fn *ssa.Function) string {
 	s = strings.ReplaceAll(s, "github.com/elliotchance/orderedmap/v3.", "orderedmap.")
 	s = strings.ReplaceAll(s, "[string,any]", "")
 	s = strings.ReplaceAll(s, "[string, any]", "")
+	s = reGenericSuffix.ReplaceAllString(s, "")
 	return s
 }
+
+// generic instantiation suffix of a function name, e.g. "Set[string any]" or "slices.Contains[[]string string]"
+var reGenericSuffix = regexp.MustCompile(`\[[^()]*\]$`)
 
 func (vc *FnVC) pos(p token.Pos) string {
 	if !p.IsValid() {
@@ -410,6 +419,8 @@ func computeOrdinals(fn *ssa.Function) map[ssa.Instruction]string {
 				key = "arith"
 			case *ssa.MapUpdate:
 				key = "mapupdate"
+			case *ssa.MakeInterface:
+				key = "mkiface"
 			}
 			if key != "" {
 				recs = append(recs, rec{in, key, in.Pos(), seq})
@@ -618,6 +629,9 @@ func (fr *Frame) cellComps(el types.Type) []string {
 // addrComps: the state components a store through this address may modify.
 func (fr *Frame) addrComps(addr ssa.Value) []string {
 	g := fr.vc.g
+	if pt, ok := addr.Type().Underlying().(*types.Pointer); ok && isOMStruct(pt.Elem()) {
+		return []string{"Mem:OMap"}
+	}
 	switch a := addr.(type) {
 	case *ssa.Global:
 		if a.Pkg == g.pkg {
